@@ -1,6 +1,13 @@
 (* Model of pkg/trait/publicationpb: ModelServer.CreatePublication / UpdatePublication /
-   AcknowledgePublication on one publication id.  The version hash (md5 of id, body, media type and
-   audience name) is an abstract function of that content; times are readings of the model's clock. *)
+   DeletePublication / AcknowledgePublication on one publication id.  The version hash (md5 of id, body,
+   media type and audience name) is an abstract function of that content; times are readings of the
+   model's clock.
+
+   Update masks are modelled for every subset of the paths
+     id version body media_type publish_time audience
+     audience.name audience.receipt audience.receipt_rejected_reason audience.receipt_time
+   (nil mask = all fields, a mask naming an unknown field = InvalidArgument), following
+   masks.FieldUpdater.Merge: Filter(src) ; proto.Merge(dst, src) ; pruneEmpty(dst, src, mask). *)
 From SC Require Import Base.Prelude.
 
 Record aud := mkAud { a_name : string; a_receipt : Z; a_reason : string; a_rtime : option Z }.
@@ -15,11 +22,67 @@ Definition content_eqb (a b : content) : bool :=
 
 Definition NO_SIGNAL := 1. Definition ACCEPTED := 2. Definition REJECTED := 3.
 
+(* a non-nil update mask: which paths it names; [k_bad]: it names a field Publication does not have *)
+Record pmask := mkPM { k_id : bool; k_version : bool; k_body : bool; k_media : bool; k_ptime : bool;
+                       k_aud : bool; k_aname : bool; k_areceipt : bool; k_areason : bool; k_artime : bool;
+                       k_bad : bool }.
+Definition pm_empty (k : pmask) : bool :=
+  negb (k_id k || k_version k || k_body k || k_media k || k_ptime k || k_aud k
+        || k_aname k || k_areceipt k || k_areason k || k_artime k || k_bad k).
+Definition pm_only_body : pmask := mkPM false false true false false false false false false false false.
+Definition pm_body_media : pmask := mkPM false false true true false false false false false false false.
+Definition pm_aname : pmask := mkPM false false false false false false true false false false false.
+Definition pm_aud : pmask := mkPM false false false false false true false false false false false.
+
 Inductive pubop :=
 | PCreate (p : pub)
-| PUpdate (p : pub) (mask : Z) (version : string)   (* mask: 0 absent, 1 [body], 2 [body, media_type] *)
+| PUpdate (p : pub) (mask : option pmask) (version : string)
+| PDelete (id version : string) (allow_missing : bool)
 | PAck (id version : string) (receipt : Z) (reason : string) (allow : bool).
-Inductive pout := POk (p : pub) | PErr (code : Z).
+(* [PNil]: (nil, nil), the answer of a delete of a missing publication with allow_missing *)
+Inductive pout := POk (p : pub) | PErr (code : Z) | PNil.
+
+(* proto.Merge on one singular field: a populated source field overwrites *)
+Definition merge_str (d s : string) : string := if String.eqb s EmptyString then d else s.
+Definition merge_z (d s : Z) : Z := if s =? 0 then d else s.
+Definition merge_ot (d s : option Z) : option Z := match s with Some _ => s | None => d end.
+Definition aud0 : aud := mkAud EmptyString 0 EmptyString None.
+Definition merge_aud (d s : aud) : aud :=
+  mkAud (merge_str (a_name d) (a_name s)) (merge_z (a_receipt d) (a_receipt s))
+        (merge_str (a_reason d) (a_reason s)) (merge_ot (a_rtime d) (a_rtime s)).
+
+(* the audience after Merge with a mask naming fields inside audience only *)
+Definition masked_aud (k : pmask) (d s : option aud) : option aud :=
+  let pick (A : Type) (b : bool) (x y : A) := if b then x else y in
+  match s, d with
+  | None, None => None
+  | None, Some da =>        (* pruneEmpty: the named sub-fields are cleared *)
+      Some (mkAud (pick _ (k_aname k) EmptyString (a_name da)) (pick _ (k_areceipt k) 0 (a_receipt da))
+                  (pick _ (k_areason k) EmptyString (a_reason da)) (pick _ (k_artime k) None (a_rtime da)))
+  | Some sa, _ =>           (* named sub-fields become the source's, the others stay *)
+      let da := match d with Some da => da | None => aud0 end in
+      Some (mkAud (pick _ (k_aname k) (a_name sa) (a_name da)) (pick _ (k_areceipt k) (a_receipt sa) (a_receipt da))
+                  (pick _ (k_areason k) (a_reason sa) (a_reason da)) (pick _ (k_artime k) (a_rtime sa) (a_rtime da)))
+  end.
+
+(* FieldUpdater.Merge(dst := clone of old, src := request publication) *)
+Definition merge_pub (mask : option pmask) (old p : pub) : pub :=
+  match mask with
+  | None => p                                  (* proto.Reset(dst); proto.Merge(dst, src) *)
+  | Some k =>
+      if pm_empty k then old else              (* a mask without paths: no changes *)
+      let f (A : Type) (b : bool) (x y : A) := if b then x else y in
+      mkPub (f _ (k_id k) (p_id p) (p_id old)) (f _ (k_version k) (p_version p) (p_version old))
+            (f _ (k_body k) (p_body p) (p_body old)) (f _ (k_media k) (p_media p) (p_media old))
+            (if k_aud k then                   (* the whole audience: merged into the old one, cleared when absent *)
+               match p_aud p with
+               | None => None
+               | Some sa => Some (merge_aud (match p_aud old with Some da => da | None => aud0 end) sa)
+               end
+             else if k_aname k || k_areceipt k || k_areason k || k_artime k then masked_aud k (p_aud old) (p_aud p)
+             else p_aud old)
+            (f _ (k_ptime k) (p_ptime p) (p_ptime old))
+  end.
 
 Section Pub.
   Variable hash : content -> string.
@@ -47,16 +110,20 @@ Section Pub.
         end
     | PUpdate p mask version =>
         if String.eqb (p_id p) EmptyString then (PErr 3, pre) else
+        if match mask with Some k => k_bad k | None => false end then (PErr 3, pre) else
         match pre with
         | None => (PErr 5, None)
         | Some old =>
             if negb (String.eqb version EmptyString) && negb (String.eqb (p_version old) version) then (PErr 9, pre)
-            else
-              let merged :=
-                if mask =? 0 then p
-                else if mask =? 1 then mkPub (p_id old) (p_version old) (p_body p) (p_media old) (p_aud old) (p_ptime old)
-                else mkPub (p_id old) (p_version old) (p_body p) (p_media p) (p_aud old) (p_ptime old) in
-              let n := computed now merged in (POk n, Some n)
+            else let n := computed now (merge_pub mask old p) in (POk n, Some n)
+        end
+    | PDelete id version allow_missing =>
+        if String.eqb id EmptyString then (PErr 3, pre) else
+        match pre with
+        | None => (if allow_missing then PNil else PErr 5, None)
+        | Some old =>
+            if negb (String.eqb version EmptyString) && negb (String.eqb (p_version old) version) then (PErr 9, pre)
+            else (POk old, None)
         end
     | PAck id version receipt reason allow =>
         if String.eqb id EmptyString || String.eqb version EmptyString then (PErr 3, pre) else
@@ -76,4 +143,26 @@ Section Pub.
 
   Definition version_ok (p : option pub) : Prop :=
     match p with Some p => p_version p = hash (content_of p) | None => True end.
+
+  (* what one step of a history must satisfy: a successful create/update answers with the stored
+     publication, whose version is the hash of its content; an acknowledgement naming another version
+     than the hash of the stored content is refused with Aborted and changes nothing *)
+  Definition step_law (now : Z) (s : option pub) (o : pubop) : Prop :=
+    match o with
+    | PCreate _ | PUpdate _ _ _ =>
+        forall n, fst (pub_step now s o) = POk n ->
+                  snd (pub_step now s o) = Some n /\ p_version n = hash (content_of n)
+    | PAck id version _ _ _ =>
+        forall old, s = Some old -> id <> EmptyString -> version <> EmptyString ->
+                    version <> hash (content_of old) -> pub_step now s o = (PErr 10, s)
+    | PDelete _ _ _ => forall n, fst (pub_step now s o) = POk n -> s = Some n /\ snd (pub_step now s o) = None
+    end.
+  Fixpoint history_law (s : option pub) (ops : list (pubop * Z)) : Prop :=
+    match ops with
+    | [] => True
+    | (o, now) :: rest => step_law now s o /\ history_law (snd (pub_step now s o)) rest
+    end.
+
+  (* the initial state of NewModel(WithInitialPublication(p)) for this id: the record as configured *)
+  Definition pub_new (cfg : option pub) : option pub := cfg.
 End Pub.
